@@ -57,6 +57,19 @@ class StateDom(object):
         self.transitions = prog.const(self.smod, '_VALID_TRANSITIONS')
         self.state_domain = self.ALL + (None,)
         self._depth = 0
+        self._textkeys = False
+        self._alias = {}
+        self._textcache = {}
+
+    def _text(self, e, frame):
+        if frame.parent is not None:
+            return None
+        t = self._textcache.get(id(e))
+        if t is None:
+            t = ' '.join(ast.unparse(e).split())
+            self._textcache[id(e)] = (t, e)
+            return t
+        return t[0]
 
     # ---- predicate folding -------------------------------------------
     def pred_set(self, name):
@@ -106,6 +119,11 @@ class StateDom(object):
         """Value of expression e: a concrete python value or UNK."""
         if isinstance(e, ast.Constant):
             return e.value
+        if self._textkeys and isinstance(e, ast.Attribute) and \
+                dotted(e) is None:
+            k = self._text(e, frame)
+            if k is not None and self._alias.get(k, k) in env:
+                return env[self._alias.get(k, k)]
         if isinstance(e, (ast.Name, ast.Attribute)):
             if isinstance(e, ast.Name) and e.id in frame.subst:
                 sub, sfr = frame.subst[e.id]
@@ -157,6 +175,13 @@ class StateDom(object):
                 return x if (x is not UNK and y is not UNK and x == y) \
                     else UNK
             return self.ev(e.body if t else e.orelse, env, frame)
+        if self._textkeys and (isinstance(e, (ast.Call, ast.Subscript)) or (
+                isinstance(e, ast.Attribute) and dotted(e) is None)):
+            k = self._text(e, frame)
+            if k is not None:
+                k = self._alias.get(k, k)
+                if k in env:
+                    return env[k]
         if isinstance(e, ast.Call):
             return self._call(e, env, frame)
         if isinstance(e, ast.Subscript):
@@ -338,7 +363,7 @@ class StateDom(object):
 
     # ---- dataflow -----------------------------------------------------
     def analyze(self, cfg, func, variables, init=None, kill=None,
-                assume=None):
+                assume=None, alias=None, block=None):
         """Forward dataflow.  variables: list of (key, domain) where key is
         the dotted text of an access path / local name in `func`.
         Returns {node.id: set(valuation tuples)} (valuations before the
@@ -346,6 +371,9 @@ class StateDom(object):
         valuation at a node (used for caller-side preconditions)."""
         keys = [k for k, _d in variables]
         doms = [tuple(d) for _k, d in variables]
+        self._alias = dict(alias or {})
+        self._textkeys = any(('(' in k or '[' in k) for k in keys) or \
+            bool(self._alias)
         frame = Frame(func.module, {}, None, func)
         if init is None:
             start = set(itertools.product(*doms))
@@ -359,6 +387,8 @@ class StateDom(object):
             n = work.pop()
             inq.discard(n.id)
             vals = IN[n.id]
+            if block and n.id in block:
+                continue
             out_by_kind = self._transfer(cfg, n, vals, keys, doms, frame,
                                          kill)
             for s, k in n.succ:
@@ -470,8 +500,29 @@ class StateDom(object):
                         havoc.add(k)
             return
         tk = dotted(t)
+        if tk is None and isinstance(t, ast.Subscript):
+            tk = ' '.join(ast.unparse(t).split())
+            tk = self._alias.get(tk, tk)
+            if tk in keys:
+                newvals[tk] = self.ev(value, env, frame)
+                return
+            base = dotted(t.value)
+            # store into an unknown key of a tracked container
+            if base and not isinstance(t.slice, ast.Constant):
+                for k in keys:
+                    if k.startswith(base + '[') or \
+                            k.startswith(base + '.get('):
+                        havoc.add(k)
+            return
         if tk is None:
             return
+        for k in keys:
+            if k.startswith(tk + '[') or k.startswith(tk + '.get('):
+                # rebinding the container: `d = {}` empties it
+                if isinstance(value, ast.Dict) and not value.keys:
+                    newvals[k] = None
+                else:
+                    havoc.add(k)
         for k in keys:
             if k == tk:
                 newvals[k] = self.ev(value, env, frame)
